@@ -26,6 +26,9 @@ def main():
     for mid in ids:
         d = os.path.join(ROOT, mid)
         meta = json.load(open(os.path.join(d, 'meta.json')))
+        if meta.get('retired'):
+            results[mid] = {'property': meta['property'], 'tier': tier, 'checks': {}, 'error': 'retired: ' + meta['retired']}
+            continue
         wt = '/tmp/seeded_wt_' + mid
         sh(['git', '-C', '/repo', 'worktree', 'remove', '--force', wt])
         r = sh(['git', '-C', '/repo', 'worktree', 'add', '-q', '--detach', wt, 'HEAD'])
